@@ -197,6 +197,12 @@ func (t *txnSource) mkCalls(desc string) []eng.Call {
 			out = append(out, eng.Call{Kind: "addmulti", Txns: []*gen.Txn{t.txn(0), t.txn(0)}})
 		case "addbad":
 			out = append(out, eng.Call{Kind: "addbad", Txns: []*gen.Txn{t.bad()}})
+		case "addmulti3":
+			out = append(out, eng.Call{Kind: "addmulti", Txns: []*gen.Txn{t.txn(0), t.txn(0), t.txn(0)}})
+		case "addmultibad":
+			out = append(out, eng.Call{Kind: "addmultibad", Txns: []*gen.Txn{t.txn(0), t.txn(0), t.bad()}})
+		case "addmultiabandon":
+			out = append(out, eng.Call{Kind: "addmultiabandon", Txns: []*gen.Txn{t.txn(0), t.txn(0)}})
 		case "compactexpiry":
 			out = append(out, eng.Call{Kind: "compactexpiry", Expiry: &reftable.LogExpirationConfig{Time: 1003}})
 		default:
@@ -211,7 +217,7 @@ func (t *txnSource) mkCalls(desc string) []eng.Call {
 	return out
 }
 
-var engRecipes = []eng.Recipe{{}, {0}, {0, 0}, {60, 0, 0}, {200, 40, 0, 0}, {0, 0, 0, 0, 0, 0, 0}}
+var engRecipes = []eng.Recipe{{}, {0}, {0, 0}, {60, 0, 0}, {200, 40, 0, 0}, {0, 0, 0, 0, 0, 0, 0}, {-1, -2, 0}}
 
 func engCfg(i int) gen.Cfg {
 	c := gen.Cfg{SHA256: i%2 == 1}
@@ -290,7 +296,7 @@ func (e *engRunner) sweepTripleX(family string, idx int, gcfg gen.Cfg, rec eng.R
 	return n
 }
 
-var pctKinds = []string{"add", "add", "add", "addbig", "addmulti", "compactall", "autocompact", "clean", "reopen", "close,open", "fresh", "read", "addempty", "addbad", "compactexpiry", "cr01", "cr12", "cr23"}
+var pctKinds = []string{"add", "add", "add", "addbig", "addmulti", "compactall", "autocompact", "clean", "reopen", "close,open", "fresh", "read", "addempty", "addbad", "compactexpiry", "cr01", "cr12", "cr23", "addmultibad", "addmultiabandon"}
 
 // randomScenario builds a PCT/uniform scenario.
 func (e *engRunner) randomScenario(family string, idx int, seed int64) {
@@ -420,7 +426,7 @@ func (e *engRunner) explicitRanges(idx int, every bool) int {
 	}
 	pairs := [][2]string{{"cr23", "cr01"}, {"cr23", "cr01,add"}, {"cr12", "cr01"}, {"cr01", "cr23,add"}, {"cr23", "add,cr01,add"},
 		{"cr13", "cr01"}, {"cr34", "cr02,add"}, {"cr22", "cr01"}, {"cr12", "cr34,add"}, {"cr24", "cr01,cr00,add"}}
-	recs := []eng.Recipe{{0, 0, 0, 0}, {0, 0, 0, 0, 0}, {30, 0, 0, 10, 0}}
+	recs := []eng.Recipe{{0, 0, 0, 0}, {0, 0, 0, 0, 0}, {30, 0, 0, 10, 0}, {-1, -2, 0, 0, 0}}
 	for pi, pr := range pairs {
 		for ri, rec := range recs {
 			if e.c.Mine(idx) {
